@@ -28,9 +28,8 @@ Any other exception, on any code, is a disagreement.
 from __future__ import annotations
 
 import json
-import os
 import random
-import time
+import re
 import traceback
 from dataclasses import dataclass, field
 
@@ -42,8 +41,8 @@ repo_python_path()
 
 from halmos.bitvec import HalmosBitVec as BV  # noqa: E402
 from halmos.bytevec import ByteVec  # noqa: E402
-from halmos.contract import Contract, Instruction  # noqa: E402
-from halmos.exceptions import HalmosException, NotConcreteError  # noqa: E402
+from halmos.contract import Contract  # noqa: E402
+from halmos.exceptions import NotConcreteError  # noqa: E402
 
 SYM = -1
 ALPHABET = (0x00, 0x5B, 0x5F, 0x60, 0x61, 0x7F, 0x56, 0x01)
@@ -73,8 +72,6 @@ def tlc_enum(cfg: str, work, *, coverage: bool = False, expect_violation: bool =
     r = run_tlc(MODULE, cfg, work=work, env={"BYTECODE_IN": str(stub)}, coverage=coverage,
                 expect_violation=True, heap=heap, extra=["-continue"] if expect_violation else None)
     if expect_violation:
-        import re
-
         r.violated = sorted(set(re.findall(r"Error: Invariant (\S+) is violated", r.stdout)))
         return [], r
     if r.violated:
@@ -617,24 +614,19 @@ def random_code(rnd: random.Random, max_len: int = 4096) -> list[int]:
 
 
 def random_slices(rnd: random.Random, code) -> list[list[int]]:
+    """(off, size) pairs: the whole code and beyond, slices ending at / around the end of the concrete
+    prefix (the fast-path boundary of Contract.slice) and of the code, far beyond the end, empty, random."""
     n = len(code)
     pre = next((i for i, b in enumerate(code) if b == SYM), n)
-    out = {(0, min(n + 3, 200)), (n, 2), (max(0, n - 1), 3), (n + rnd.randint(1, 5000), rnd.randint(1, 8)), (0, 0)}
-    for d in (-1, 0, 1):
-        if pre + d >= 0:
-            out.add((max(0, pre + d - rnd.randint(0, 40)), 0))
-    fixed = set()
-    for off, size in out:
-        fixed.add((off, size))
-    # slices whose end is at / around the end of the concrete prefix and of the code
+    out = {(0, min(n + 3, 200)), (n, 2), (max(0, n - 1), 3), (n + rnd.randint(1, 5000), rnd.randint(1, 8)), (0, 0),
+           (rnd.randint(0, n + 2), 0)}
     for end in (pre - 1, pre, pre + 1, n - 1, n, n + 1):
         if end >= 0:
             off = max(0, end - rnd.randint(0, 48))
-            fixed.add((off, end - off))
+            out.add((off, end - off))
     for _ in range(4):
-        off = rnd.randint(0, n + 40)
-        fixed.add((off, rnd.randint(0, 70)))
-    return sorted([list(p) for p in fixed])
+        out.add((rnd.randint(0, n + 40), rnd.randint(0, 70)))
+    return sorted([list(p) for p in out])
 
 
 def random_cases(n: int, seed: int, first_id: int = 0) -> list[dict]:
